@@ -71,6 +71,9 @@ func c19CmdJudge(c *c19CmdCase, wr *worldRun) (*c19CmdVerdict, bool) {
 			failed = append(failed, a.Op+" "+a.Path+": "+a.Err)
 		}
 	}
+	if len(failed) > 0 && len(c.FSFaults) == 0 && c.DiskCap == 0 && c.Blocker == "" {
+		return bad("spurious-error", "no fault was injected, yet a write-side step failed (%s); exit status %d", failed[0], res.Exit)
+	}
 	if len(failed) > 0 {
 		if res.Exit == 0 {
 			return bad("error-lost", "a write-side step failed (%s) but thriftgo exited with status 0", failed[0])
@@ -154,6 +157,17 @@ func c19CmdPhase(a *artefacts, tier string, seed uint64, rep *reporter) map[stri
 		mu.Lock()
 		runs++
 		mu.Unlock()
+		if bw.Res != nil && bw.Res.Exit != 0 {
+			// nothing was injected: a failing write-side step is the code's own doing
+			for _, ac := range bw.Res.FSLog {
+				if ac.Err != "" && (ac.Op == "mkdirall" || ac.Op == "mkdir" || ac.Op == "open-w" || ac.Op == "write") && !strings.Contains(ac.Err, "file exists") {
+					mu.Lock()
+					founds = append(founds, &found{c, &c19CmdVerdict{Class: "spurious-error", Sig: "cmd:spurious-error", Msg: fmt.Sprintf("no fault was injected, yet %s %s failed (%s) and thriftgo exited with status %d", ac.Op, ac.Path, ac.Err, bw.Res.Exit)}})
+					mu.Unlock()
+					return
+				}
+			}
+		}
 		if !accepted(bw) {
 			mu.Lock()
 			stats["cmd.discarded"]++
